@@ -74,12 +74,14 @@ func c02dedup(c *Ctx, r *Report, fn *ssa.Function, rule string) {
 				continue
 			}
 			arg := call.Call.Args[0]
-			inbox := dependsOn(arg, func(v ssa.Value) bool { s, ok := constString(v); return ok && s == "/in/" })
-			mid := dependsOn(arg, func(v ssa.Value) bool {
+			// the name may be built by a same-package helper: dependence with parameters bound per call (ip_i1.go)
+			ipi := newIPI1(c, pkgRel(fn))
+			inbox := ipi.dependsOn(arg, nil, func(v ssa.Value) bool { s, ok := constString(v); return ok && s == "/in/" })
+			mid := ipi.dependsOn(arg, nil, func(v ssa.Value) bool {
 				cl, ok := v.(*ssa.Call)
 				return ok && callName(&cl.Call) == "fbb.Proposal.MID"
 			})
-			ext := dependsOn(arg, func(v ssa.Value) bool { s, ok := constString(v); return ok && s == ".b2f" })
+			ext := ipi.dependsOn(arg, nil, func(v ssa.Value) bool { s, ok := constString(v); return ok && s == ".b2f" })
 			if inbox && mid && ext {
 				good = true
 			} else {
